@@ -110,6 +110,33 @@ def build_program(shape, with_clone=True):
     return src, exp, {"ord": can_ord, "hash": can_hash}
 
 
+def hier_program(depth, kind="class"):
+    """A class hierarchy `depth` levels deep (each level adds one int field); the deepest class derives everything.
+    Declaration order of the fields is oldest ancestor first. Values: all 0/1 vectors, so that levels disagree in direction."""
+    names = ["Base", "Mid", "Leaf"][:depth]
+    fields = ["alpha", "beta", "gamma"][:depth]
+    decl = ""
+    for i, (n, f) in enumerate(zip(names, fields)):
+        head = f"{kind} {n}" + (f" extends {names[i - 1]}" if i else "") + ":"
+        decl += f"@derive(Debug, Clone, Eq, Ord, Hash, Serialize, Deserialize)\n{head}\n    {f}: int\n\n    def tag{i}(self) -> int:\n        return {i}\n\n\n"
+    top = names[-1]
+    vals = list(itertools.product((0, 1), repeat=depth))
+    lines, exp = [], []
+    for k, v in enumerate(vals):
+        args = ", ".join(f"{f}={x}" for f, x in zip(fields, v))
+        lines.append(f"v{k} = {top}({args})")
+    for k, v in enumerate(vals):
+        lines.append(f"println(json_stringify(v{k}))")
+        exp.append(json.dumps({f: x for f, x in zip(fields, v)}, separators=(",", ":")))
+    for a, b in itertools.permutations(range(len(vals)), 2):
+        lines.append(f"println(v{a} < v{b})")
+        exp.append("true" if vals[a] < vals[b] else "false")
+        lines.append(f"println(v{a} == v{b})")
+        exp.append("false")
+    src = decl + "def main() -> None:\n" + "\n".join("    " + l for l in lines) + "\n"
+    return src, exp, {"ord": True, "hash": True}
+
+
 def json_line_equal(got, want):
     """Field order of the top-level object is textual; nested dict key order is not fixed (hash map)."""
     if got == want:
@@ -132,13 +159,16 @@ def run(tier):
     for shape in shapes(tier):
         src, exp, caps = build_program(shape)
         cases.append((shape, src, exp, caps))
+    for depth in (1, 2, 3):
+        src, exp, caps = hier_program(depth)
+        cases.append((("class-hierarchy", f"depth{depth}"), src, exp, caps))
     fr = serve.run_requests([{"id": i, "op": "front", "src": c[1], "emit": False} for i, c in enumerate(cases)])
     # `.clone()` is documented for @derive(Clone) but the checker of the pinned tree rejects it on models: where that is the
     # only complaint, the clone observation is dropped for that shape (recorded in the evidence) instead of losing the shape
     clone_dropped = []
     for i, c in enumerate(cases):
         errs = [] if fr[i].get("crashed") else fr[i]["check"]["errs"]
-        if errs and all("has no method 'clone" in m for m, _, _ in errs):
+        if errs and all("has no method 'clone" in m for m, _, _ in errs) and c[0][0] != "class-hierarchy":
             src, exp, caps = build_program(c[0], with_clone=False)
             cases[i] = (c[0], src, exp, caps)
             clone_dropped.append("+".join(c[0]))
@@ -182,7 +212,7 @@ def run(tier):
         "evaluations": n_lines,
         "distinct_nontrivial": len(sig_ok),
         "rule": "model shapes: every single field type of {int, bool, str, str with JSON-escape classes, float, List[int], Option[int], Option[str], Dict[str,int]}, 8 two-field and "
-        "2 three-field shapes (thorough: all ordered pairs and 5 triples); values: one field varied at a time over its alphabet plus the all-last tuple (<= 7 values per shape); "
+        "2 three-field shapes (thorough: all ordered pairs and 5 triples), and class hierarchies 1, 2 and 3 levels deep (one int field per level, all 0/1 value vectors, all ordered pairs compared); values: one field varied at a time over its alphabet plus the all-last tuple (<= 7 values per shape); "
         "observations per value: json_stringify text, from_json round trip (text and ==), key-permuted input, pairwise == and <, clone equality; evaluations = output lines compared; "
         "non-trivial = shapes whose whole program built, ran and matched",
         "samples": [{"shape": list(c[0]), "program": c[1]} for c in common.pick_samples(cases)],
